@@ -178,7 +178,6 @@ type runner struct {
 	lenRule  string
 	jvm      chan struct{} // bounds the number of validation JVMs
 	inflight chan struct{} // bounds the number of batches in memory
-	heavy    chan struct{} // heavy plans run one after the other
 	deadline time.Time     // optional plans that have not started by then are skipped
 	seenMu   sync.Mutex
 	seen     map[uint64]bool // cases of sample plans (which may repeat cases of other plans)
@@ -303,10 +302,6 @@ func (r *runner) doBatch(po *planOutcome, cases []Case) {
 // the real code and the trace validation.
 func (r *runner) runPlan(p Plan, fixed []Case) *planOutcome {
 	po := &planOutcome{plan: p, perTarget: map[string]int{}, accepted: map[string]int{}, breakdown: map[string]int{}}
-	if p.Heavy {
-		r.heavy <- struct{}{}
-		defer func() { <-r.heavy }()
-	}
 	po.start = time.Now()
 	if p.Optional && !r.deadline.IsZero() && time.Now().After(r.deadline) {
 		po.skipped = true
@@ -355,7 +350,7 @@ func Check(c *core.Ctx) int {
 	}
 	kp, kpNote := NewKeyperEnv(c)
 	defer kp.Close()
-	r := &runner{c: c, us: us, kp: kp, lenRule: lenRule, jvm: make(chan struct{}, 8), inflight: make(chan struct{}, 10), heavy: make(chan struct{}, 1),
+	r := &runner{c: c, us: us, kp: kp, lenRule: lenRule, jvm: make(chan struct{}, 8), inflight: make(chan struct{}, 10),
 		seen: map[uint64]bool{}, exhaustN: map[string]bool{}}
 	if c.Thorough() {
 		r.deadline = c.Start.Add(18 * time.Minute)
@@ -397,7 +392,21 @@ func Check(c *core.Ctx) int {
 			outs[0] = r.runPlan(Plan{Name: "known-witnesses", Domain: "fixed", Access: true}, witnessCases)
 		}()
 	}
+	// light plans run concurrently; heavy plans one after the other, in the listed order
+	wg.Add(1)
+	go func() {
+		defer wg.Done()
+		for i, p := range plans {
+			if p.Heavy {
+				p.LenRule = lenRule
+				outs[i+1] = r.runPlan(p, nil)
+			}
+		}
+	}()
 	for i, p := range plans {
+		if p.Heavy {
+			continue
+		}
 		p.LenRule = lenRule
 		wg.Add(1)
 		go func(i int, p Plan) {
